@@ -74,6 +74,16 @@ CHECKS = {
     technique="CBMC: verbatim function through the C++ front end against an executable contract of tbb::global_control; DFCC contract on the extracted --cores block; plus bounded observation of the real oneTBB and of the rebuilt demos (hook H2)",
     text="Proof under the stated dependency contract: for all n>=1 and call sequences the limit is n after return; for all flag valuations --parallel implies the knob is called with --cores. The real-TBB observations are supporting bounded evidence. Found and repaired: limit died at return; demos called the knob only with --verbose.",
     note="Trusted: the global_control contract model and unique_ptr stub (delete modelled explicitly because CBMC's C++ front end does not run destructors on delete), program_options presence of defaulted options; limits set by third parties assumed not stricter."),
+ "C03": dict(
+    engine="E1+E3", category="other", design_ref="DESIGN.md 4/C03, 2.4, 3 (K5,K7,K8)",
+    technique="CBMC proofs of the reduction-operator laws (contract + lemma over the contract) and of the frame/functional contract of the shared-state update task; bounded runs of the unchanged entry points against an executable contract model of TBB with enumerated/seeded schedules, plus the real oneTBB",
+    text="Side conditions that make parallel_reduce/parallel_for schedule independent are proved (operator laws on the view, identity, disjoint write sets, row k outside all ranges). The entry points themselves are a bounded stand-in: schedules are choice tapes of a TBB contract model (odometer enumeration, exhaustive where it terminates, plus seeded tapes) on the exact-domain set with the brute-force optimum as oracle; the real oneTBB with 1/2/16 workers confirms the model is not stricter than the library.",
+    note="The TBB model is an assumption about the dependency; tasks run one at a time in the model. Race freedom outside the update region rests on ownership arguments (not verified). Induction over the split tree is a paper argument recorded in the evidence."),
+ "C04": dict(
+    engine="E1+E3", category="other", design_ref="DESIGN.md 4/C04, 2.4, 3 (K7,K23)",
+    technique="CBMC proof of the MPI reduction operator's laws (commutativity on the view as promised by is_commutative); native exhaustive slice arithmetic; bounded runs of the unchanged entry points against executable contract models of Boost.MPI and TBB with per-rank heap layouts; replay under the real mpiexec",
+    text="Operator laws proved; everything about rank counts and layouts is a bounded stand-in: P in {1,2,3,4,5,7}, per-rank edge-address orders (identical / reversed / seeded), collectives checked for mismatch, early return and hang, rank 0 judged against the brute-force optimum. Found and repaired: mcb_sva_signed_mpi depended on pointer order (non-minimum result with differing layouts, reproduced under real mpiexec).",
+    note="Boost.MPI model and TBB model are assumptions; serialisation bypassed in the model (exercised by the real-mpiexec replay and the demo runs of C11); only edge-node addresses are permuted."),
 }
 
 NOT_APPLICABLE = {p: WIP for p in ["C%02d" % i for i in range(1, 21)] if p not in CHECKS}
